@@ -33,6 +33,11 @@ pub mod trackers;
 ///
 pub mod utils;
 
+/// Verification-only schedule points (off unless built with `--cfg similari_verif`)
+///
+#[cfg(similari_verif)]
+pub mod verif_hooks;
+
 pub use track::store;
 pub use track::voting;
 
